@@ -12,7 +12,7 @@ Import ListNotations.
 (** reduce the behaviour switches of [repaired] *)
 Ltac beh := cbn [repaired b_df_checks b_df_cols_check b_mtag_pos_first b_array_checks_first b_meta_lookup_first
                  b_link_lookup_first b_ext_check_first b_values_check_first b_prop_type_check b_prop_values_uniform
-                 b_esrc_by_name b_uuid_name_links b_replace_all_atomic b_feature_null_guard andb negb].
+                 b_esrc_by_name b_uuid_name_links b_replace_all_atomic b_feature_null_guard b_delsource_by_id andb negb].
 
 Section Shape.
 Variable ids : nat -> string.
